@@ -26,6 +26,7 @@ THEOREMS = [
     "newDiagonalOffset_spec",
     "newOffset_spec",
     "tolerance_witness",
+    "repeated_variable_rejected",
 ]
 
 RULE = ("every matrix length 0..70 x variable-list length 0..4 x 4 constructor variants with 0/1 and dyadic entries; "
